@@ -86,7 +86,7 @@ def configure(chdir=True):
         pass
     # silence logging
     runLog.setVerbosity("error")
-    logging.disable(logging.CRITICAL)
+    logging.disable(10**6)
     d = scratch_dir()
     if chdir:
         os.chdir(d)
